@@ -137,6 +137,190 @@ func checkC12(c *Ctx, r *Report) {
 		r.Check(ok, "R12d", c.FnName(tc), "live view", c.Pos(tc.Pos()), "result derives from the receiver and is never a fresh object", "Child() hands out a copy of the sub-config: writes through the child handle are no longer visible through the parent")
 	}
 	liveChildRule(c, r)
+	partDisciplineRule(c, r, "R12h")
+	accessorFamilyRules(c, r)
+}
+
+// accessorFamilyRules: three more families whose members must stay in step for "a getter reads back what a setter
+// wrote at the same address".
+//
+//	R12i the four walkers of cfgPath (Has, GetValue, SetValue, Remove) read and write nodes only through the
+//	     segment methods (field.GetValue / SetValue / Remove): none has a way of its own into a node;
+//	R12j each typed getter converts the value it found with the accessor of its own type (Int with toInt, …);
+//	R12k each typed setter stores the node type of its own kind with its argument as the payload.
+func accessorFamilyRules(c *Ctx, r *Report) {
+	r.Rule("R12i", "cfgPath.Has / GetValue / SetValue / Remove reach into nodes only through the segment methods of the field interface, never through the accessors of fields directly", 4)
+	pathT := c.Named("", "cfgPath")
+	fieldsT := c.Named("", "fields")
+	for _, mn := range []string{"Has", "GetValue", "SetValue", "Remove"} {
+		fn := c.MethodImpl(pathT, mn)
+		if fn == nil {
+			r.add("R12i", "ucfg.cfgPath."+mn, "walks through the segment methods", "-", Undecided, true, "method not found")
+			continue
+		}
+		fn = declared(c, fn)
+		bad := ""
+		for _, g := range WithAnon(fn) {
+			Instrs(g, false, func(in ssa.Instruction) {
+				switch x := in.(type) {
+				case ssa.CallInstruction:
+					if f := x.Common().StaticCallee(); f != nil && recvName(f) == "fields" {
+						bad = "fields." + f.Name() + " at " + c.Pos(x.Pos())
+					}
+				case *ssa.FieldAddr:
+					if nt, f, ok := FieldOf(x); ok && nt == fieldsT {
+						bad = "fields." + f + " at " + c.Pos(x.Pos())
+					}
+				}
+			})
+		}
+		r.Check(bad == "", "R12i", c.FnName(fn), "walks through the segment methods", c.Pos(fn.Pos()), "no direct access to node storage",
+			"a path walker reaches into a node by itself ("+bad+"): what it finds at a segment can differ from what the segment's getter, setter and remover agree on")
+	}
+
+	r.Rule("R12j", "Bool, String, Int, Uint, Float and Child convert the value found with the accessor of their own type (toBool, toString, toInt, toUint, toFloat, toConfig) and return its result", 6)
+	want := map[string]string{"Bool": "toBool", "String": "toString", "Int": "toInt", "Uint": "toUint", "Float": "toFloat", "Child": "toConfig"}
+	for _, g := range []string{"Bool", "String", "Int", "Uint", "Float", "Child"} {
+		fn := c.Method("", "Config", g)
+		used := map[string]bool{}
+		var acc *ssa.Call
+		for _, ci := range CallsIn(fn, false) {
+			if ci.Common().IsInvoke() && strings.HasPrefix(ci.Common().Method.Name(), "to") && isNamed(ci.Common().Value.Type(), modPath, "value") {
+				used[ci.Common().Method.Name()] = true
+				if call, ok := ci.(*ssa.Call); ok && ci.Common().Method.Name() == want[g] {
+					acc = call
+				}
+			}
+		}
+		ok := len(used) == 1 && used[want[g]] && acc != nil
+		// the success value is the accessor's result
+		if ok {
+			for _, ret := range Returns(fn) {
+				res := RetVal(ret, 0)
+				if k, isK := res.(*ssa.Const); isK {
+					_ = k
+					continue // the zero value next to an error
+				}
+				from := false
+				for _, s := range append(Sources(res), res) {
+					if ex, isEx := s.(*ssa.Extract); isEx && ex.Tuple == ssa.Value(acc) && ex.Index == 0 {
+						from = true
+					}
+				}
+				if !from {
+					ok = false
+				}
+			}
+		}
+		r.Check(ok, "R12j", c.FnName(fn), "own accessor", c.Pos(fn.Pos()), want[g]+" and nothing else",
+			"the getter "+g+" does not return exactly what "+want[g]+" of the value found gives (accessors used: "+strings.Join(sortedKeys(used), ",")+"): it reads a setting differently from Unpack into the same type and from the setter of its own kind")
+	}
+
+	r.Rule("R12k", "SetBool, SetInt, SetUint, SetFloat and SetString store a node of their own kind (cfgBool, cfgInt, cfgUint, cfgFloat, cfgString) whose payload is their argument", 5)
+	node := map[string][2]string{"SetBool": {"cfgBool", "b"}, "SetInt": {"cfgInt", "i"}, "SetUint": {"cfgUint", "u"}, "SetFloat": {"cfgFloat", "f"}, "SetString": {"cfgString", "s"}}
+	for _, sname := range []string{"SetBool", "SetInt", "SetUint", "SetFloat", "SetString"} {
+		fn := c.Method("", "Config", sname)
+		var valParam *ssa.Parameter
+		if len(fn.Params) >= 4 {
+			valParam = fn.Params[3]
+		}
+		ok, why := false, "no node of kind "+node[sname][0]+" built"
+		nodes := 0
+		Instrs(fn, false, func(in ssa.Instruction) {
+			al, isAl := in.(*ssa.Alloc)
+			if !isAl || !al.Heap {
+				return
+			}
+			nt, isN := al.Type().(*types.Pointer).Elem().(*types.Named)
+			if !isN || !strings.HasPrefix(nt.Obj().Name(), "cfg") {
+				return
+			}
+			nodes++
+			if nt.Obj().Name() != node[sname][0] {
+				why = "a node of kind " + nt.Obj().Name() + " is built"
+				return
+			}
+			for _, ref := range *al.Referrers() {
+				fa, isFA := ref.(*ssa.FieldAddr)
+				if !isFA {
+					continue
+				}
+				if _, f, _ := FieldOf(fa); f != node[sname][1] {
+					continue
+				}
+				for _, r2 := range *fa.Referrers() {
+					if st, isSt := r2.(*ssa.Store); isSt && st.Addr == ssa.Value(fa) {
+						if st.Val == ssa.Value(valParam) {
+							ok = true
+						} else {
+							why = "the payload stored is " + st.Val.String() + ", not the argument"
+						}
+					}
+				}
+			}
+		})
+		if nodes > 1 {
+			ok, why = false, "more than one node built"
+		}
+		// the same through the kind's constructor
+		ctorName := "new" + strings.TrimPrefix(node[sname][0], "cfg")
+		if ctor := c.TryFunc("", ctorName); ctor != nil && nodes == 0 {
+			for _, ci := range CallsTo(fn, ctor, false) {
+				if len(ci.Common().Args) == 3 && ci.Common().Args[2] == ssa.Value(valParam) {
+					ok = true
+				} else {
+					why = ctorName + " is not given the argument as payload"
+				}
+			}
+		}
+		r.Check(ok, "R12k", c.FnName(fn), "own node kind", c.Pos(fn.Pos()), "&"+node[sname][0]+"{"+node[sname][1]+": value}",
+			"the setter "+sname+" does not store a "+node[sname][0]+" holding its argument ("+why+"): the getter of the same kind, and Unpack, read back something else than what was set")
+	}
+}
+
+// partDisciplineRule (R12h, and R20f): a node has a dictionary part and a list part; a named path segment addresses
+// the first, an index segment the second. The getter, the setter and the remover of each kind of segment are
+// siblings that must agree on where a segment lives: none of them looks into the other part (an index answered from
+// the dictionary, or by the node itself because it "is one object", is an address the setter and the remover do
+// not know).
+func partDisciplineRule(c *Ctx, r *Report, rule string) {
+	r.Rule(rule, "the methods of idxField use only the list accessors of fields (array, setAt, delAt), the methods of namedField only the dictionary accessors (get, set, del, dict)", 6)
+	fieldsT := c.Named("", "fields")
+	dictPart := map[string]bool{"get": true, "set": true, "del": true, "dict": true, "d": true}
+	listPart := map[string]bool{"array": true, "setAt": true, "delAt": true, "append": true, "add": true, "a": true}
+	for _, tn := range []string{"idxField", "namedField"} {
+		t := c.Named("", tn)
+		allowed, other, otherName := listPart, dictPart, "dictionary"
+		if tn == "namedField" {
+			allowed, other, otherName = dictPart, listPart, "list"
+		}
+		_ = allowed
+		for _, mn := range []string{"GetValue", "SetValue", "Remove"} {
+			fn := c.MethodImpl(t, mn)
+			if fn == nil {
+				continue
+			}
+			fn = declared(c, fn)
+			name := c.FnName(fn)
+			bad := ""
+			for _, g := range WithAnon(fn) {
+				Instrs(g, false, func(in ssa.Instruction) {
+					switch x := in.(type) {
+					case ssa.CallInstruction:
+						if f := x.Common().StaticCallee(); f != nil && recvName(f) == "fields" && other[f.Name()] {
+							bad = "fields." + f.Name() + " at " + c.Pos(x.Pos())
+						}
+					case *ssa.FieldAddr:
+						if nt, f, ok := FieldOf(x); ok && nt == fieldsT && other[f] {
+							bad = "fields." + f + " at " + c.Pos(x.Pos())
+						}
+					}
+				})
+			}
+			r.Check(bad == "", rule, name, "stays in its part of the node", c.Pos(fn.Pos()), "no access to the "+otherName+" part",
+				"a "+tn+" method looks into the "+otherName+" part of the node ("+bad+"): the getter, the setter and the remover of a path segment no longer agree on where it lives — a setting can be read at an address it cannot be written or removed at (or the other way round), and a numeric segment is answered by a name")
+		}
+	}
 }
 
 // liveChildRule (R12g): the two ends of the live view. SetChild puts the caller's own config into the tree (wrapped,
